@@ -388,9 +388,10 @@ Definition action_accum (posts : list slot_post) (c : counts) : counts :=
   fold_left action_slot posts c.
 (* ActionSequence::step (host): with a single track slot every action of order
    [post] whose id is not the track's post-step action is skipped
-   ([skip_post_action]); ActionDiagnostic has order [post] and is never a
-   track's post-step action, so it does not run at all in that case.
-   [skip_single] = this shortcut applies to the diagnostic. *)
+   ([skip_post_action]).  ActionDiagnostic now has order [user_post] (repo commit
+   d1fcf6b), so the shortcut does not apply to it: the faithful model of the
+   current code is [skip_single = false].  [skip_single = true] is the OLD
+   variant (order [post]): the diagnostic did not run at all with one slot. *)
 Definition action_step (skip_single : bool) (posts : list slot_post) (c : counts) : counts :=
   if skip_single && Nat.eqb (length posts) 1 then c else action_accum posts c.
 Definition action_run (skip_single : bool) (steps : list step) (c : counts) : counts :=
